@@ -293,6 +293,18 @@ pub fn run(args: &Args) -> Report {
         e.pubkey = [0; 32];
         shapes.push(e);
     }
+    // BMP scalars as content and tag string (quick: every 16th and the encoding boundaries; thorough: all)
+    if sample.is_none() {
+        let stride = if args.thorough() { 1 } else { 16 };
+        for c in (0u32..=0xFFFF).filter(|c| c % stride == 0 || [0x7f, 0x80, 0x7ff, 0x800, 0xd7ff, 0xe000, 0xfffd, 0xffff].contains(c)) {
+            if let Some(ch) = char::from_u32(c) {
+                let mut e = e2.clone();
+                e.content = format!("{ch}");
+                e.tags = vec![vec![format!("{ch}")]];
+                shapes.push(e);
+            }
+        }
+    }
     if sample.is_some() {
         shapes.truncate(3);
     }
